@@ -139,7 +139,7 @@ def generate(rng, tier, index):
         elif k == "add_key":
             ids = [i for i in range(len(decls[s])) if rng.random() < 0.4 and i not in keys[s]]
             keys[s].update(ids)
-            ops.append({"s": s, "op": "add_key", "ids": ids, "form": rng.randint(0, 3)})
+            ops.append({"s": s, "op": "add_key", "ids": ids, "form": rng.randint(0, 5)})
         elif k == "scribble":
             i = rng.randrange(len(decls[s]))
             if decls[s][i]["t"] == "b":
@@ -277,14 +277,30 @@ def key_arg(vars_, ids, form):
         return tuple(vs)  # positional
     if form == 2 and len(vs) >= 2:
         return ([vs[0], [vs[1:]]],)
-    if form == 3 and vs:
+    if form in (3, 4, 5) and vs:
         from cspuz import array as A
         from cspuz.expr import BoolVar
 
-        if all(isinstance(v, BoolVar) for v in vs):
-            return (A.BoolArray1D(vs),)
-        if not any(isinstance(v, BoolVar) for v in vs):
-            return (A.IntArray1D(vs),)
+        all_b = all(isinstance(v, BoolVar) for v in vs)
+        all_i = not any(isinstance(v, BoolVar) for v in vs)
+        if not (all_b or all_i):
+            return (vs,)
+        A1, A2 = (A.BoolArray1D, A.BoolArray2D) if all_b else (A.IntArray1D, A.IntArray2D)
+        if form == 3:
+            return (A1(vs),)
+        n = len(vs)
+        if form == 4 and n >= 2 and n % 2 == 0:
+            # a 2-D array whose cells are exactly the keys (their ids need not be consecutive)
+            return (A2(vs, (2, n // 2)),)
+        if form == 5 and n >= 2 and n % 2 == 0:
+            # a 2-D slice of a wider grid: the rightmost column holds other variables of the same
+            # sort and must NOT become keys
+            others = [v for v in vars_ if isinstance(v, BoolVar) == all_b and all(v is not k for k in vs)]
+            if len(others) >= 1:
+                half = n // 2
+                grid = A2(vs[:half] + [others[0]] + vs[half:] + [others[-1]], (2, half + 1))
+                return (grid[:, 0:half],)
+        return (A1(vs),)
     return (vs,)
 
 
@@ -361,7 +377,7 @@ def _run_ops(sc, res, sessions, ctx, z3cap):
             elif k == "solve":
                 # state-changing step only (C02 decides its result); bounded so that a broken
                 # refute loop cannot hang the run
-                bound = 2 + sum((2 if S.decls[i]["t"] == "b" else S.decls[i]["hi"] - S.decls[i]["lo"] + 1) for i in S.keys)
+                bound = 8 + 3 * sum((2 if S.decls[i]["t"] == "b" else S.decls[i]["hi"] - S.decls[i]["lo"] + 1) for i in S.keys)
                 with warnings.catch_warnings():
                     warnings.simplefilter("ignore")
                     ctx.reset_calls()
